@@ -40,7 +40,8 @@ type BLS12PublicKey struct {
 
 // ToBytes marshals the public key to a byte slice.
 func (pub BLS12PublicKey) ToBytes() []byte {
-	return bls12.NewG1().ToCompressed(pub.p)
+	// ToCompressed normalises its argument in place; key objects are shared between goroutines, so work on a copy.
+	return bls12.NewG1().ToCompressed(new(bls12.PointG1).Set(pub.p))
 }
 
 // FromBytes unmarshals the public key from a byte slice.
@@ -233,6 +234,14 @@ func (bls *bls12Base) coreVerify(pubKey *BLS12PublicKey, message []byte, signatu
 // under the final exponentiation except with negligible probability).
 func pairingCheck(pks []*bls12.PointG1, qs []*bls12.PointG2, signature *bls12.PointG2, signatureFirst bool) bool {
 	n := len(pks)
+	// AddPair normalises the points it is given in place. Public keys and signatures are shared with
+	// other goroutines (votes are verified concurrently), so the checks work on copies.
+	shared := pks
+	pks = make([]*bls12.PointG1, n)
+	for i := range shared {
+		pks[i] = new(bls12.PointG1).Set(shared[i])
+	}
+	signature = new(bls12.PointG2).Set(signature)
 	engine := bls12.NewEngine()
 	// arrangement 0: e(-G1, signature) * prod e(pk_i, q_i) == 1
 	if signatureFirst {
